@@ -378,7 +378,7 @@ var explains = map[string]map[string]bool{
 	"absent-collection-minlen":                          {"rejected:invalid_length": true, "misnamed:invalid_length": true, "refused:invalid_length": true},
 	"both-exclusive-bounds":                             {"leaked": true, "accepted": true},
 	"required-cookie":                                   {"leaked": true},
-	"required-query-map-absent":                         {"leaked": true},
+	"required-query-map-absent":                         {"leaked": true, "misnamed:invalid_length": true},
 	"path-value-with-slash":                             {"rejected:fault": true, "misnamed:fault": true},
 	"body-attr-absent":                                  {"panic": true, "rejected:*": true, "misnamed:*": true, "mismatch": true},
 	"required-object-outside-view":                      {"panic": true},
